@@ -177,7 +177,7 @@ def run(ctx, stats, have_model=True):
         dist["by_generator"][gen] = dist["by_generator"].get(gen, 0) + 1
         dist["by_what"][spec.get("what", "")] = dist["by_what"].get(spec.get("what", ""), 0) + 1
         p = parse(r)
-        shown = json.dumps({k: (v if len(json.dumps(v)) < 400 else json.dumps(v)[:400] + "...") for k, v in spec.items()}, ensure_ascii=False)[:900]
+        shown = json.dumps({k: (v if len(json.dumps(v)) < 400 else json.dumps(v, ensure_ascii=False)[:400] + "...") for k, v in spec.items()}, ensure_ascii=False)[:900]
         if p is None or p["res"].startswith("PANIC") or p["plain"].startswith("PANIC"):
             panics += 1
             dist["outcomes"]["PANIC / HANG"] = dist["outcomes"].get("PANIC / HANG", 0) + 1
